@@ -156,6 +156,8 @@ def run(tier):
     wrong, drift = encconf.conformance(chk, "aztec", quick)
     for k, c in enumerate(wrong + drift):
         jobs.append(gen.enc("aztec", list(c["content"]), ((0, 23, 33)[k % 3], 0)))
+    for d in encconf.aztec_selection(chk, quick):          # size choices where the real encoder left AztecSel!Select
+        jobs.append(gen.enc("aztec", d["content"], tuple(d["p"])))
     evs, extras = onedim.judge(chk, drive, jobs, "TraceAztec", "TraceAztec.cfg", 14 if quick else 16, wanted, heap="5g", timeout=6000, describe=describe)
     ok = [e for e in evs if e["res"]["kind"] == "ok"]
     chk.cov["symbols_decoded"] = len(ok)
